@@ -290,6 +290,36 @@ H("web_trailers_frame_len_10", ["C17"], "web_vb", *WEB, cap_s=600,
              "trailers frame before parsing it)", functions=["tonic_web::call::trailers_frame_len"],
   bounds="all buffers of length 0..=10 (symbolic length)")
 
+for nm, b in (("2_unpadded", "'XX'"), ("2_padded", "'XX=='"), ("3_unpadded", "'XXX'"), ("3_padded", "'XXX='")):
+    H("md_bin_decode_" + nm, ["C08", "C04"], "core", *ME, cap_s=600,
+      obligation="M3 (read side): Binary::decode accepts a peer's base64 value with and without '=' padding and yields the bytes of an "
+                 "arithmetic reference decoder",
+      functions=["metadata::encoding::Binary::decode", "tonic::util::base64::STANDARD (DecodePaddingMode::Indifferent)"],
+      bounds="all canonical values of the shape %s over the base64 alphabet" % b)
+H("web_encode_trailers_repeated", ["C16"], "web", *WEB, cap_s=3600, tier="thorough", optional=True, stubs=[HTTPH],
+  obligation="R2 kernel: encode_trailers lists every value of a repeated trailer name, one 'name:value CRLF' line each, in order",
+  functions=["tonic_web::call::encode_trailers", "http::HeaderMap::{append,iter}"],
+  bounds="one name with two 1-byte visible-ASCII symbolic values")
+
+for p_ in (0, 4):
+    H("enc_body_step_p%d" % p_, ["C03", "C02"], "core_vb", *ENC, cap_s=1500, mem_gb=22, tier="thorough", optional=True,
+      stubs=["Status::to_header_map replaced by a recorder of the code that returns an empty map (header encoding is decided in C04)"],
+      obligation="S1/W2: one poll of EncodeBody::poll_frame from every state (role, is_end_stream, %d buffered bytes) against every source "
+                 "event: a server emits exactly one trailers block carrying the handler's code (OK at end of stream), only after the "
+                 "buffered frames, and nothing (no data, no second status, no source poll) after it; a client never emits trailers and "
+                 "surfaces a source error as the body error" % p_,
+      functions=["tonic::codec::EncodeBody::poll_frame", "EncodeState::trailers", "EncodedBytes::poll_next"],
+      bounds="%d symbolic buffered bytes, one symbolic source event, role and is_end_stream symbolic" % p_,
+      may_be_uncovered=(["trailers frame", "body error", "client end", "pending"] if p_ > 0 else []),
+      unwindset=UW_MAPS + [("codec::encode::EncodedBytes<", 3)])
+
+H("twin_dec_hdr_false", ["C06", "C07", "C01", "C05"], "core", *DEC, tier="thorough", cap_s=600, expect="fail",
+  obligation="vacuity guard: a deliberately false assertion after the decode_chunk call must be reported violated", functions=DEC_FUNCS,
+  bounds="all 6-byte buffers")
+H("twin_rc_false", ["C14"], "transport", *RC, tier="thorough", cap_s=900, expect="fail", unwindset=UW_MAPS + [("Reconnect<", 8)],
+  obligation="vacuity guard: a deliberately false assertion after the Reconnect step must be reported violated",
+  functions=["Reconnect::poll_ready"], bounds="k=2")
+
 
 def select(pid, tier, seed=0):
     out = []
